@@ -234,6 +234,14 @@ def _r2_r5(ctx, m):
             if v[0] == "ifexp" and v[1][0] == "cmp":
                 sent[("thermal wrap test", FILE, s.line)] = v[1][2][1][1] if v[1][2][1][0] == "const" else None
                 sent[("thermal wrap kept value", FILE, s.line)] = v[2][1] if v[2][0] == "const" else (v[3][1] if v[3][0] == "const" else None)
+            else:
+                # the wrap as a conditional store `if entry != sentinel: entry = wrap(entry)`: the test is in the guard, the kept
+                # value is the untouched entry itself
+                for gc, gp in s.fact.guards:
+                    gc = simp(gc)
+                    if gc[0] == "cmp" and gc[1] == ("Eq",) and gp is False and gc[2][1][0] == "const" and gc[2][0][0] == "sub":
+                        sent[("thermal wrap test", FILE, s.line)] = gc[2][1][1]
+                        sent[("thermal wrap kept value", FILE, s.line)] = gc[2][1][1]
     if "csr_sentinel" in ctx.stats:
         sent[("CSR filter", FILE, m.func.lineno)] = ctx.stats["csr_sentinel"]
     for label, rel, cfg in (("dense template", JAC, {"general.method": "dense"}), ("odeint template", ODEINT, {})):
